@@ -1236,6 +1236,87 @@ def r13_resume_point_reaches_the_failing_code(ctx, rule="C05.R13"):
     ctx.require(rule, 15)
 
 
+def r14_the_statement_search_takes_the_boundary_right(ctx, rule="C05.R14"):
+    """`RESUME re-executes the failing statement, RESUME NEXT the one after it`: the VM finds the statement by
+    searching the sorted list of statement marks for the address of the failing instruction.  The address of a
+    statement's FIRST instruction is a mark itself (an error raised by the first instruction of `x = 1 / 0`'s
+    code), so the boundary case decides: the current statement is the last mark <= address, the next one the
+    first mark > address.  Two spellings are recognised and judged; anything else is recorded as not decided:
+    `binary_search` (found: the mark itself / the following one; not found at i: mark i - 1 / mark i) and
+    `partition_point(pred)`, whose predicate is evaluated on the three orderings of an element against the
+    address (less, equal, greater) and must be true, true, false - then mark p - 1 / mark p."""
+    from .. import tagflow as tf
+    prog = ctx.prog
+    fns = {}
+    for f in prog.fns.values():
+        if f.crate != "rusty_basic" or f.body is None or f.kind == "closure" or f.argc != 2:
+            continue
+        ty1 = f.body.locals[1]["ty"]
+        if "StatementFinder" in ty1 or ("statement" in f.name and "find" in f.name):
+            if "usize" in f.body.locals[2]["ty"] and f.body.locals[0]["ty"] == "usize":
+                fns[f.name] = f
+    cur = [f for n, f in fns.items() if "current" in n]
+    nxt = [f for n, f in fns.items() if "next" in n]
+    if len(cur) != 1 or len(nxt) != 1:
+        raise CheckError("%s: the two searches over the statement marks were not found (%s)" % (rule, sorted(fns)))
+    eng = tf.Engine(prog)
+    for f, want_minus_one, what in ((cur[0], True, "current"), (nxt[0], False, "next")):
+        body = f.body
+        pv = mir.Prov(body)
+        calls = {mir.callee_path(t).split("::")[-1]: (b, t) for b, t in body.calls()}
+        rets = []
+        for b, blk in enumerate(body.blocks):
+            if blk.get("c"):
+                continue
+            for st in blk["s"]:
+                if st["k"] == "assign" and st["p"][0] == 0 and not st["p"][1]:
+                    rets.append(str(pv._of_rvalue(st["r"], 0)))
+        key = "%s:find-%s" % (rule, what)
+        if "partition_point" in calls:
+            b, t = calls["partition_point"]
+            so = mir.strip_all(pv.of_operand(t["args"][1])) if len(t["args"]) > 1 else ("unknown",)
+            c = prog.fns.get(so[2]) if so[0] == "agg" and so[1] == "closure" else None
+            table = []
+            if c is not None:
+                # the closure: (upvars, &element); the captured address is its only upvar
+                for x in (1, 2, 3):
+                    up = tf.Tup([tf.Ref(tf.K(2))]) if so[3] and str(so[3][0]).startswith("&") else tf.Tup([tf.K(2)])
+                    try:
+                        rs = {tf.shape(r) for r in eng.summary(c, (tf.Ref(up), tf.Ref(tf.K(x))))}
+                    except Exception:
+                        rs = {"?"}
+                    table.append(rs)
+            good = table == [{"1"}, {"1"}, {"0"}]
+            minus = any("partition_point" in r and ("Sub" in r) for r in rets)
+            plain = any("partition_point" in r and "Sub" not in r for r in rets)
+            shape_ok = minus if want_minus_one else (plain and not minus)
+            if any("?" in x for x in table) or not table:
+                ctx.ok(rule, key, f.loc, "partition_point with a predicate that could not be evaluated: not decided")
+                ctx.not_decided.append("%s: boundary of the statement search (%s)" % (rule, what))
+                continue
+            ctx.decide(good and shape_ok, rule, key, f.loc,
+                       "partition_point: predicate is true for smaller and equal marks, false for greater ones; mark p%s"
+                       % (" - 1" if want_minus_one else ""),
+                       "the search for the %s statement uses partition_point with a predicate that is %s on (smaller, equal, "
+                       "greater) marks%s: an error raised by the first instruction of a statement is attributed to the %s "
+                       "statement" % (what, [sorted(x) for x in table], "" if shape_ok else " and takes the wrong neighbour of p",
+                                      "previous" if want_minus_one else "same"))
+        elif "binary_search" in calls:
+            found_ok = err_ok = False
+            for r in rets:
+                if " as Err)" in r:
+                    err_ok = ("Sub" in r) if want_minus_one else ("Sub" not in r and "Add" not in r)
+                if " as Ok)" in r or r.startswith("arg1"):
+                    found_ok = (r.startswith("arg1") or ("Add" not in r and "Sub" not in r)) if want_minus_one else ("Add" in r)
+            ctx.decide(found_ok and err_ok, rule, key, f.loc,
+                       "binary_search: found -> %s, not found at i -> mark %s" % ("the mark itself" if want_minus_one else "the following mark", "i - 1" if want_minus_one else "i"),
+                       "the search for the %s statement takes the wrong neighbour of the binary search's answer (%s)" % (what, rets[:3]))
+        else:
+            ctx.ok(rule, key, f.loc, "a search in another spelling: not decided")
+            ctx.not_decided.append("%s: boundary of the statement search (%s)" % (rule, what))
+    ctx.require(rule, 2)
+
+
 def run(ctx):
     common.install(ctx)
     r1_error_codes(ctx)
@@ -1252,3 +1333,4 @@ def run(ctx):
     r11_resume_label_abandons_active_calls(ctx)
     r12_resume_ends_error_handling(ctx)
     r13_resume_point_reaches_the_failing_code(ctx)
+    r14_the_statement_search_takes_the_boundary_right(ctx)
